@@ -334,7 +334,7 @@ func runSCIONServer(ctx context.Context, log *slog.Logger, mtrcs *scionServerMet
 			if fetcher != nil && len(decoded) >= 3 &&
 				decoded[len(decoded)-2] == slayers.LayerTypeEndToEndExtn {
 				authOpt, err = e2eLayer.FindOption(slayers.OptTypeAuthenticator)
-				if err == nil {
+				if err == nil && len(authOpt.OptData) == scion.PacketAuthOptDataLen {
 					spi, algo := scion.PacketAuthOptMetadata(authOpt)
 					if spi == scion.PacketAuthSPIClient && algo == scion.PacketAuthAlgorithm {
 						hostASKey, err := fetcher.FetchHostASKey(ctx, drkey.HostASMeta{
